@@ -1,6 +1,7 @@
 package main
 
 import (
+	"os"
 	"fmt"
 	"go/constant"
 	"strings"
@@ -284,6 +285,13 @@ type elemResult struct {
 // queryElem: at a generic position of the zip loop over sequence seq where both sides are present,
 // a smaller int element must end the comparison with -1.
 func (c *aeCtx) queryElem(root *ssa.Function, seq string) *elemResult {
+	return c.queryElemBy(root, seq, nil)
+}
+
+// queryElemBy: the same for a value derived from the element (pick names the term whose order is
+// fixed to "smaller", and terms that must not be the empty string, after a first plain analysis
+// has created the terms).
+func (c *aeCtx) queryElemBy(root *ssa.Function, seq string, pick func(terms map[string]*termInfo) (string, []string)) *elemResult {
 	res := &elemResult{}
 	// find the loop that zips seq: run a plain analysis first so that summaries exist
 	c.queryPair(root, nil, nil)
@@ -296,7 +304,11 @@ func (c *aeCtx) queryElem(root *ssa.Function, seq string) *elemResult {
 		for _, l := range c.loopsOf(f) {
 			if s, ok := c.lsum[loopID(f, l)]; ok && s.ok {
 				for k := range c.terms {
-					if strings.HasPrefix(k, "zip:"+loopID(f, l)+"(") && strings.HasSuffix(k, "("+seq+")") {
+					if strings.HasPrefix(k, "zip:"+loopID(f, l)+"(") && (strings.HasSuffix(k, "("+seq+")") || seq == "") {
+						if seq == "" && lp != nil && lp != l {
+							res.oof = "several zip loops"
+							return res
+						}
 						fn, lp = f, l
 					}
 				}
@@ -308,12 +320,39 @@ func (c *aeCtx) queryElem(root *ssa.Function, seq string) *elemResult {
 		return res
 	}
 	elem := seq + "[i]"
+	var nonEmpty []string
+	if pick != nil {
+		elem, nonEmpty = pick(c.terms)
+		if elem == "" {
+			res.oof = "no value parsed from the elements of " + seq + " is compared"
+			if os.Getenv("GVDEBUG") != "" {
+				for k := range c.terms {
+					fmt.Fprintln(os.Stderr, "  qeb term", k)
+				}
+			}
+			return res
+		}
+	}
+	errK := ""
+	if strings.HasSuffix(elem, "#0") {
+		errK = strings.TrimSuffix(elem, "#0") + "#1"
+	}
 	saved := c.filter
 	c.filter = func(w *world) bool {
 		for k, v := range w.pos {
 			key := k[:strings.LastIndex(k, "|")]
 			if ti := c.terms[key]; ti != nil && ti.kind == akPresence && v != 1 {
 				return false
+			}
+			if errK != "" && key == errK && v != 0 {
+				return false
+			}
+			for _, ne := range nonEmpty {
+				if key == ne {
+					if ei := poolIndexStr(c.pools[ne], ""); ei >= 0 && v == 2*ei+1 {
+						return false
+					}
+				}
 			}
 		}
 		if v, ok := c.cmpAssigned(w, elem, 0, 1); ok && v != -1 {
@@ -327,6 +366,9 @@ func (c *aeCtx) queryElem(root *ssa.Function, seq string) *elemResult {
 	res.oof = c.withRetries(root, func() {
 		res.leaves = c.explore(2, 200000, func(w *world) {
 			o := c.runIter(root, w, 0, 1, fn, lp)
+			if os.Getenv("GVDEBUG") == "qeb" {
+				fmt.Fprintf(os.Stderr, "  qeb leaf %v <- %s\n", o, w.describe(c.pools, c.terms))
+			}
 			if o == nil {
 				return
 			}
@@ -342,6 +384,12 @@ func (c *aeCtx) queryElem(root *ssa.Function, seq string) *elemResult {
 		})
 	})
 	if !touched && res.oof == "" {
+		if os.Getenv("GVDEBUG") != "" {
+			fmt.Fprintln(os.Stderr, "  qeb elem", elem, nonEmpty)
+			for k := range c.terms {
+				fmt.Fprintln(os.Stderr, "  qeb2 term", k)
+			}
+		}
 		res.ok = false
 		res.detail = "the element values are never compared"
 	}
